@@ -4,94 +4,6 @@ import Lemmas.NumPrepare
 namespace Num
 open VM
 
-/-! ### a typed expression that is not a portion contains no portion literal -/
-
-theorem visitExpr_noPortion {st : CState} {e : Expr} {o : ExprOut} (h : visitExpr st e = .ok o) (ht : o.ty ≠ .portion) :
-    e.noPortion = true := by
-  induction e generalizing st o with
-  | acct _ => rfl
-  | asset _ => rfl
-  | num _ => rfl
-  | str _ => rfl
-  | var _ => rfl
-  | portion r =>
-    simp only [visitExpr, litOut] at h
-    split at h
-    · cases h
-    · simp only [Except.ok.injEq] at h; subst h; exact absurd rfl ht
-  | badPortion => simp [visitExpr] at h
-  | mon ae k ih =>
-    simp only [Expr.noPortion]
-    simp only [visitExpr] at h
-    split at h
-    · cases h
-    · rename_i ao hao
-      split at h
-      · cases h
-      · rename_i hty
-        exact ih hao (by rw [Classical.not_not.mp hty]; decide)
-  | add l r ihl ihr =>
-    simp only [Expr.noPortion, Bool.and_eq_true]
-    simp only [visitExpr] at h
-    split at h
-    · cases h
-    · rename_i lo hlo
-      split at h
-      · rename_i hnum
-        split at h
-        · cases h
-        · rename_i ro hro
-          split at h
-          · cases h
-          · rename_i hrt
-            exact ⟨ihl hlo (by rw [hnum]; decide), ihr hro (by rw [Classical.not_not.mp hrt]; decide)⟩
-      · split at h
-        · rename_i hmon
-          split at h
-          · cases h
-          · rename_i ro hro
-            split at h
-            · cases h
-            · rename_i hrt
-              exact ⟨ihl hlo (by rw [hmon]; decide), ihr hro (by rw [Classical.not_not.mp hrt]; decide)⟩
-        · cases h
-  | sub l r ihl ihr =>
-    simp only [Expr.noPortion, Bool.and_eq_true]
-    simp only [visitExpr] at h
-    split at h
-    · cases h
-    · rename_i lo hlo
-      split at h
-      · rename_i hnum
-        split at h
-        · cases h
-        · rename_i ro hro
-          split at h
-          · cases h
-          · rename_i hrt
-            exact ⟨ihl hlo (by rw [hnum]; decide), ihr hro (by rw [Classical.not_not.mp hrt]; decide)⟩
-      · split at h
-        · rename_i hmon
-          split at h
-          · cases h
-          · rename_i ro hro
-            split at h
-            · cases h
-            · rename_i hrt
-              exact ⟨ihl hlo (by rw [hmon]; decide), ihr hro (by rw [Classical.not_not.mp hrt]; decide)⟩
-        · cases h
-
-theorem visitTyped_noPortion {st st' : CState} {want : BTy} {e : Expr} {a : Addr} {c : Code}
-    (h : visitTyped st want e = .ok (a, c, st')) (hw : want ≠ .portion) : e.noPortion = true := by
-  unfold visitTyped at h
-  split at h
-  · cases h
-  · rename_i o ho
-    split at h
-    · cases h
-    · rename_i hty
-      exact visitExpr_noPortion ho (by rw [Classical.not_not.mp hty]; exact hw)
-
 /-! ### the invariant of the simulation -/
 
 /-- `V` is the table `vals` with every pending `balance(…)` slot (`un`) filled in with the stored balance -/
